@@ -756,7 +756,24 @@ pub fn evaluate_single(cfg: &RunCfg, rec: &RunRecord) -> (Vec<Finding>, Facts) {
     }
 
     // ---------------------------------------------------------------- C08: ledger
-    if kind.consuming() {
+    if kind.is_zst() {
+        let p = if cfg.panic.is_some() { "C18" } else { "C08" };
+        let l = &rec.ledger;
+        if l.zst_drops as usize != len {
+            out.push(f(
+                p,
+                if (l.zst_drops as usize) < len {
+                    "never-dropped"
+                } else {
+                    "double-drop"
+                },
+                format!(
+                    "{} destructor runs for {len} zero-sized elements (skip used: {has_skip})",
+                    l.zst_drops
+                ),
+            ));
+        }
+    } else if kind.consuming() {
         let p = if cfg.panic.is_some() { "C18" } else { "C08" };
         let l = &rec.ledger;
         if let Some((id, seq, t)) = l.double_drops.first() {
@@ -844,7 +861,23 @@ pub fn evaluate_single(cfg: &RunCfg, rec: &RunRecord) -> (Vec<Finding>, Facts) {
             _ => usize::MAX,
         };
         let mut bad: Option<String> = None;
-        if !has_skip {
+        if kind.is_zst() {
+            // no identity: the remainder is judged by its size
+            let want = complement.len().min(take);
+            let ok = if has_skip {
+                got.len() <= want
+            } else {
+                got.len() == want
+            };
+            if !ok {
+                bad = Some(format!(
+                    "into_seq_iter yielded {} zero-sized elements; {} of {len} positions were delivered, so {} remain",
+                    got.len(),
+                    delivered.len(),
+                    complement.len()
+                ));
+            }
+        } else if !has_skip {
             let want: Vec<i128> = complement.iter().cloned().take(take).collect();
             if got != want {
                 bad = Some(format!(
@@ -865,7 +898,7 @@ pub fn evaluate_single(cfg: &RunCfg, rec: &RunRecord) -> (Vec<Finding>, Facts) {
                 ));
             }
         }
-        if bad.is_none() && !kind.is_range() {
+        if bad.is_none() && !kind.is_range() && !kind.is_zst() {
             for o in items {
                 if o.payload != payload_of(cfg.run_seed, o.raw) {
                     bad = Some(format!("into_seq_iter yielded id {} with a foreign payload", o.raw));
@@ -1306,7 +1339,18 @@ fn evaluate_c16_inner(cfg: &RunCfg, rec: &RunRecord) -> (Vec<Finding>, Facts) {
             .map(|j| (c0 + j) as i128)
             .collect();
         let within = got.iter().all(|&g| g >= 0 && (g as u128) < len);
-        let ok = if facts.has_skip {
+        let ok = if cfg.kind.is_zst() {
+            // zero-sized elements: judged by count
+            let want = (len - c0).min(match cfg.terminal {
+                Terminal::IntoSeq(mm) => mm as u128,
+                _ => 0,
+            });
+            if facts.has_skip {
+                items.len() as u128 <= want
+            } else {
+                items.len() as u128 == want
+            }
+        } else if facts.has_skip {
             // an ordered run of undelivered positions
             within && got.windows(2).all(|w| w[1] == w[0] + 1) && got.first().map(|&g| g as u128 >= c0).unwrap_or(true)
         } else {
